@@ -611,6 +611,10 @@ HEADER_SETS = (
     [("Accept-Encoding", "gzip"), ("X-Forwarded-For", "1.2.3.4"), ("If-None-Match", '"abc"')],
     [("X-Colon", "a: b"), ("X-Empty", "")],
     [("Content_Type", "evil/under"), ("Content-Type", "real/type")],
+    # only Content-Type and Content-Length lose the HTTP_ prefix (PEP 3333); every other Content-* header keeps it and
+    # repeated ones are joined (seed C19-4)
+    [("Content-Encoding", "gzip"), ("Content-Language", "de"), ("Content-Language", "en")],
+    [("Content-MD5", "Q2hlY2s="), ("Content-Disposition", "form-data"), ("Content-Type", "a/b"), ("Content-Typed", "x")],
 )
 
 
